@@ -10,11 +10,26 @@ import (
 	"fmt"
 	"os"
 	"path/filepath"
+	"regexp"
 	"sort"
 	"strings"
 )
 
-// yamlBlock renders a JSON-like value as block-style YAML (strings always double-quoted, JSON-escaped)
+var yamlPlainOK = regexp.MustCompile(`^[A-Za-z][A-Za-z0-9._/-]*$`)
+
+// words YAML 1.1 reads as booleans or null when unquoted (any case): a writer quotes them
+var yamlReserved = map[string]bool{"y": true, "n": true, "yes": true, "no": true, "true": true, "false": true, "on": true, "off": true, "null": true}
+
+// yamlScalar: strings as a YAML writer emits them - plain when that is unambiguous, double-quoted (JSON-escaped) otherwise
+func yamlScalar(c interface{}) string {
+	if str, ok := c.(string); ok && yamlPlainOK.MatchString(str) && !yamlReserved[strings.ToLower(str)] {
+		return str
+	}
+	s, _ := json.Marshal(c)
+	return string(s)
+}
+
+// yamlBlock renders a JSON-like value as block-style YAML
 func yamlBlock(v interface{}, indent int, b *strings.Builder) {
 	pad := strings.Repeat("  ", indent)
 	switch x := v.(type) {
@@ -25,7 +40,7 @@ func yamlBlock(v interface{}, indent int, b *strings.Builder) {
 		}
 		sort.Strings(keys)
 		for _, k := range keys {
-			kq, _ := json.Marshal(k)
+			kq := yamlScalar(k)
 			switch c := x[k].(type) {
 			case map[string]interface{}:
 				if len(c) == 0 {
@@ -42,8 +57,7 @@ func yamlBlock(v interface{}, indent int, b *strings.Builder) {
 					yamlBlock(c, indent, b)
 				}
 			default:
-				s, _ := json.Marshal(c)
-				fmt.Fprintf(b, "%s%s: %s\n", pad, kq, s)
+				fmt.Fprintf(b, "%s%s: %s\n", pad, kq, yamlScalar(c))
 			}
 		}
 	case []interface{}:
@@ -65,8 +79,7 @@ func yamlBlock(v interface{}, indent int, b *strings.Builder) {
 					}
 				}
 			default:
-				s, _ := json.Marshal(c)
-				fmt.Fprintf(b, "%s- %s\n", pad, s)
+				fmt.Fprintf(b, "%s- %s\n", pad, yamlScalar(c))
 			}
 		}
 	}
